@@ -1,7 +1,487 @@
-//! C01 — harness not built yet.
+//! C01 — morphemes partition the original text byte-for-byte (lossless surfaces).
+//! Pipeline-level run of the real tokenizer (plugin stacks x dictionaries x modes); the partition predicate of
+//! Model/Buffer.v is evaluated on the implementation's output and the reported offsets / surfaces are compared with the
+//! model's to_orig* applied to the implementation's own offset map.
 use crate::common::*;
+use serde_json::{json, Value};
+use std::collections::HashMap;
+use sudachi::analysis::node::LatticeNode;
+use sudachi::analysis::stateful_tokenizer::StatefulTokenizer;
+use sudachi::analysis::Mode;
+use sudachi::config::ConfigBuilder;
+use sudachi::dic::build::DictBuilder;
+use sudachi::dic::dictionary::JapaneseDictionary;
+use sudachi::dic::storage::{Storage, SudachiDicData};
+use sudachi::dic::DictionaryLoader;
+use sudachi::input_text::InputTextIndex;
 
-pub fn run(_args: &Args) {
-    eprintln!("no harness for C01 yet");
-    std::process::exit(2);
+fn res(f: &str) -> String {
+    format!("{}/sudachi/tests/resources/{}", repo(), f)
+}
+
+// ---------------------------------------------------------------- dictionaries
+/// base words (already in normalised form, so that they are reachable after input-text rewriting)
+const POOL: [&str; 24] = [
+    "キロ", "メートル", "アパート", "株式", "会社", "ab", "c", "abc", "東京", "大学", "かんじ", "漢字", "カ", "ガ", "スー", "パー", "fi", "iii", "さ", "ー", "1", "百",
+    "é", "𠮷野",
+];
+
+#[derive(Clone, Debug)]
+struct DictSpec {
+    kind: u8, // 0 shipped system + shipped user, 1 generated system, 2 generated system + generated user
+    seed: u64,
+}
+
+struct BuiltDict {
+    system: Vec<u8>,
+    user: Option<Vec<u8>>,
+    words: Vec<String>,
+}
+
+fn shipped_words() -> Vec<String> {
+    let lex = std::fs::read_to_string(res("lex.csv")).unwrap();
+    lex.lines().filter_map(|l| l.split(',').next()).filter(|w| !w.is_empty() && w.len() < 40).map(|s| s.to_string()).collect()
+}
+
+fn row(surface: &str, cost: i32, mode: &str, a: &str, b: &str) -> String {
+    format!("{s},7,7,{c},{s},名詞,普通名詞,一般,*,*,*,ヨミ,{s},*,{m},{a},{b},*,*", s = surface, c = cost, m = mode, a = a, b = b)
+}
+
+fn build_dict(spec: &DictSpec) -> Result<BuiltDict, String> {
+    if spec.kind == 0 {
+        let mut words = shipped_words();
+        words.extend(["ぴらる", "府", "東京府", "すだち", "ぴさる", "かぼす"].iter().map(|s| s.to_string()));
+        return Ok(BuiltDict {
+            system: std::fs::read(res("system.dic.test")).map_err(|e| e.to_string())?,
+            user: Some(std::fs::read(res("user.dic.test")).map_err(|e| e.to_string())?),
+            words,
+        });
+    }
+    let mut rng = Rng::new(spec.seed);
+    let lex = std::fs::read_to_string(res("lex.csv")).map_err(|e| e.to_string())?;
+    let mut nrows = lex.lines().count();
+    let mut words = shipped_words();
+    let mut extra = String::new();
+    // base words
+    let nbase = 4 + rng.below(8) as usize;
+    let mut base: Vec<(usize, String)> = vec![];
+    for _ in 0..nbase {
+        let w = *rng.pick(&POOL);
+        if base.iter().any(|(_, x)| x == w) {
+            continue;
+        }
+        extra.push('\n');
+        extra.push_str(&row(w, 2000 + rng.below(3000) as i32, "A", "*", "*"));
+        base.push((nrows, w.to_string()));
+        words.push(w.to_string());
+        nrows += 1;
+    }
+    // compounds with well-formed A / B splits (units concatenate to the headword)
+    let ncomp = 1 + rng.below(4) as usize;
+    let mut comps: Vec<(usize, String)> = vec![];
+    for _ in 0..ncomp {
+        let k = 2 + rng.below(2) as usize;
+        let units: Vec<&(usize, String)> = (0..k).map(|_| rng.pick(&base)).collect();
+        let surface: String = units.iter().map(|u| u.1.as_str()).collect();
+        if words.iter().any(|w| *w == surface) {
+            continue;
+        }
+        let a = units.iter().map(|u| u.0.to_string()).collect::<Vec<_>>().join("/");
+        let b = if rng.chance(1, 2) { a.clone() } else { "*".to_string() };
+        extra.push('\n');
+        extra.push_str(&row(&surface, 500 + rng.below(1500) as i32, "C", &a, &b));
+        comps.push((nrows, surface.clone()));
+        words.push(surface);
+        nrows += 1;
+    }
+    let mut b = DictBuilder::new_system();
+    b.read_conn(std::fs::read(res("matrix_10x10.def")).map_err(|e| e.to_string())?.as_slice()).map_err(|e| format!("{:?}", e))?;
+    let text = format!("{}{}", lex, extra);
+    b.read_lexicon(text.as_bytes()).map_err(|e| format!("{:?}", e))?;
+    b.resolve().map_err(|e| format!("{:?}", e))?;
+    let mut system = vec![];
+    b.compile(&mut system).map_err(|e| format!("{:?}", e))?;
+    let mut user = None;
+    if spec.kind == 2 {
+        let loaded = DictionaryLoader::read_system_dictionary(&system).map_err(|e| format!("{:?}", e))?.to_loaded().ok_or("no grammar")?;
+        let mut ub = DictBuilder::new_user(&loaded);
+        let mut rows = vec![];
+        // a plain user word, and a user compound split into a system word and a user word
+        let u0 = format!("{}{}", rng.pick(&POOL), rng.pick(&POOL));
+        rows.push(row(&u0, 100, "A", "*", "*"));
+        words.push(u0.clone());
+        let sysw = rng.pick(&base).clone();
+        let comp = format!("{}{}", sysw.1, u0);
+        rows.push(row(&comp, -500, "C", &format!("{}/U0", sysw.0), &format!("{}/U0", sysw.0)));
+        words.push(comp);
+        ub.read_lexicon(rows.join("\n").as_bytes()).map_err(|e| format!("{:?}", e))?;
+        ub.resolve().map_err(|e| format!("{:?}", e))?;
+        let mut ubytes = vec![];
+        ub.compile(&mut ubytes).map_err(|e| format!("{:?}", e))?;
+        user = Some(ubytes);
+    }
+    Ok(BuiltDict { system, user, words })
+}
+
+// ---------------------------------------------------------------- plugin stacks
+#[derive(Clone, Debug)]
+struct Stack {
+    input: Vec<u8>, // 0 default (NFKC / lower-casing / rewrite table), 1 prolonged sound marks, 2 ignore yomigana; in this order
+    oov: u8,        // 0 simple, 1 mecab + simple, 2 mecab + regex + simple
+    rewrite: u8,    // 0 none, 1 numeric(normalize), 2 katakana(min 3), 3 numeric(no normalize) + katakana(min 1), 4 numeric + katakana(3)
+}
+
+fn stack_json(s: &Stack) -> Value {
+    let input: Vec<Value> = s
+        .input
+        .iter()
+        .map(|k| match k {
+            0 => json!({"class": "com.worksap.nlp.sudachi.DefaultInputTextPlugin"}),
+            1 => json!({"class": "com.worksap.nlp.sudachi.ProlongedSoundMarkPlugin",
+                        "prolongedSoundMarks": ["ー", "-", "⁓", "〜", "〰"], "replacementSymbol": "ー"}),
+            _ => json!({"class": "com.worksap.nlp.sudachi.IgnoreYomiganaPlugin",
+                        "leftBrackets": ["(", "（"], "rightBrackets": [")", "）"], "maxYomiganaLength": 4}),
+        })
+        .collect();
+    let pos = json!(["名詞", "普通名詞", "一般", "*", "*", "*"]);
+    let simple = json!({"class": "com.worksap.nlp.sudachi.SimpleOovPlugin", "oovPOS": pos, "leftId": 8, "rightId": 8, "cost": 6000});
+    let mecab = json!({"class": "com.worksap.nlp.sudachi.MeCabOovPlugin", "charDef": "char.def", "unkDef": "unk2.def", "userPOS": "allow"});
+    let regex = json!({"class": "com.worksap.nlp.sudachi.RegexOovProvider", "oovPOS": pos, "leftId": 5, "rightId": 5, "cost": -3000,
+                       "regex": "[-a-zA-Z0-9]+", "maxLength": 64, "userPOS": "allow"});
+    let oov = match s.oov {
+        0 => vec![simple],
+        1 => vec![mecab, simple],
+        _ => vec![mecab, regex, simple],
+    };
+    let num = |n: bool| json!({"class": "com.worksap.nlp.sudachi.JoinNumericPlugin", "enableNormalize": n});
+    let kat = |m: u32| json!({"class": "com.worksap.nlp.sudachi.JoinKatakanaOovPlugin", "oovPOS": pos, "minLength": m});
+    let rewrite = match s.rewrite {
+        0 => vec![],
+        1 => vec![num(true)],
+        2 => vec![kat(3)],
+        3 => vec![num(false), kat(1)],
+        _ => vec![num(true), kat(3)],
+    };
+    json!({"path": res(""), "characterDefinitionFile": "char.def", "inputTextPlugin": input, "oovProviderPlugin": oov, "pathRewritePlugin": rewrite})
+}
+
+fn load(d: &BuiltDict, s: &Stack) -> Result<JapaneseDictionary, String> {
+    let cfg = ConfigBuilder::from_bytes(stack_json(s).to_string().as_bytes()).map_err(|e| format!("{:?}", e))?.build();
+    let mut data = SudachiDicData::new(Storage::Owned(d.system.clone()));
+    if let Some(u) = &d.user {
+        data.add_user(Storage::Owned(u.clone()));
+    }
+    JapaneseDictionary::from_cfg_storage(&cfg, data).map_err(|e| format!("{:?}", e))
+}
+
+// ---------------------------------------------------------------- inputs
+const SPECIAL: [&str; 56] = [
+    "㍿", "㌔", "ｱﾞ", "ﾊﾟ", "ｶﾞ", "ﬁ", "Ⅲ", "ⅲ", "１２３", "ＡＢＣ", "ABC", "Abc", "か\u{3099}", "é", "e\u{301}", "㈱", "½", "ǆ", "ﾟ", "\u{FDFA}", "\u{337F}", "ｷﾛ", "ｱﾊﾟｰﾄ",
+    "漢字(かんじ)", "東京（とうきょう）", "都(と)", "京都(きょうとふ)", "字(じ", "(かんじ)", "大学（だいがく）に", // yomigana
+    "ー", "ーー", "〜〜〜", "あーーー", "-", "--", "⁓〰", "スーーパー", // prolonged sound marks
+    "1", "123", "1,000", "3.14", "二十", "五百", "〇", "１，０００", "六三四", "1.", ",5", // numerals
+    "アイウ", "アイアイウ", "カタカナ", "ケ", "ヴ", // katakana
+    " ", "。",
+];
+const MISC: [&str; 14] = ["　", "、", "\n", "\t", "😀", "\u{10FFFF}", "a", "Z", "特a", "な。な", "\u{200D}", "👍\u{1F3FD}", "\u{0}", "𠮷"];
+
+fn gen_text(rng: &mut Rng, words: &[String]) -> String {
+    match rng.below(20) {
+        0 => return String::new(),
+        1 => return crate::c08::rand_string(rng, 10),
+        _ => {}
+    }
+    let n = 1 + rng.below(7);
+    let mut s = String::new();
+    for _ in 0..n {
+        match rng.below(10) {
+            0..=3 => s.push_str(rng.pick(words).as_str()),
+            4..=7 => s.push_str(*rng.pick(&SPECIAL)),
+            8 => s.push_str(*rng.pick(&MISC)),
+            _ => s.push(*rng.pick(&crate::c08::ALPHABET)),
+        }
+    }
+    s
+}
+
+// ---------------------------------------------------------------- one analysis
+struct MorphOut {
+    b: usize,
+    e: usize,
+    bc: usize,
+    ec: usize,
+    surface: String,
+}
+struct Analysis {
+    cur: String,
+    m2o: Vec<usize>,
+    nodes: Vec<(usize, usize, usize, usize)>,
+    morphs: Vec<MorphOut>,
+}
+
+fn mode_of(m: u8) -> Mode {
+    match m {
+        0 => Mode::A,
+        1 => Mode::B,
+        _ => Mode::C,
+    }
+}
+
+/// Ok(None) = tokenization rejected the input (Err); Err = panic
+fn analyse(dict: &JapaneseDictionary, text: &str, mode: u8) -> Result<Option<Analysis>, String> {
+    catch(|| {
+        // first run: the input buffer and the path in the coordinates of the rewritten text
+        let mut tok = StatefulTokenizer::new(dict, mode_of(mode));
+        tok.reset().push_str(text);
+        if tok.do_tokenize().is_err() {
+            return None;
+        }
+        let (cur, m2o) = {
+            let inp = tok.verif_input();
+            let cur = inp.current().to_string();
+            let m2o: Vec<usize> = (0..=cur.len()).map(|i| inp.to_orig(i..i).start).collect();
+            (cur, m2o)
+        };
+        let mut input = Default::default();
+        let mut path = vec![];
+        let mut subset = Default::default();
+        tok.swap_result(&mut input, &mut path, &mut subset);
+        let nodes: Vec<(usize, usize, usize, usize)> = path.iter().map(|n| (n.begin(), n.end(), n.begin_bytes(), n.end_bytes())).collect();
+        // second run: what the API reports
+        let mut tok2 = StatefulTokenizer::new(dict, mode_of(mode));
+        tok2.reset().push_str(text);
+        if tok2.do_tokenize().is_err() {
+            return None;
+        }
+        let ml = match tok2.into_morpheme_list() {
+            Ok(ml) => ml,
+            Err(_) => return None,
+        };
+        let morphs: Vec<MorphOut> = ml
+            .iter()
+            .map(|m| MorphOut { b: m.begin(), e: m.end(), bc: m.begin_c(), ec: m.end_c(), surface: m.surface().to_string() })
+            .collect();
+        Some(Analysis { cur, m2o, nodes, morphs })
+    })
+}
+
+fn oracle(text: &str, a: &Analysis) -> Option<String> {
+    if a.cur.is_empty() {
+        return if a.morphs.is_empty() { None } else { Some("morphemes reported although the normalised text is empty".into()) };
+    }
+    if a.morphs.is_empty() {
+        return Some(format!("no morphemes although the normalised text is {:?}", a.cur));
+    }
+    let mut pos = 0;
+    let mut cat = String::new();
+    for (i, m) in a.morphs.iter().enumerate() {
+        if m.b != pos {
+            return Some(format!("morpheme {} begins at byte {} but the previous one ended at {}", i, m.b, pos));
+        }
+        if m.e < m.b || m.e > text.len() || !text.is_char_boundary(m.b) || !text.is_char_boundary(m.e) {
+            return Some(format!("morpheme {} has range {}..{} which is not a character-aligned range of the input", i, m.b, m.e));
+        }
+        if m.surface != text[m.b..m.e] {
+            return Some(format!("morpheme {} surface {:?} is not the input text {:?} of its range {}..{}", i, m.surface, &text[m.b..m.e], m.b, m.e));
+        }
+        if m.bc != text[..m.b].chars().count() || m.ec != text[..m.e].chars().count() {
+            return Some(format!("morpheme {} code-point offsets {}..{} do not match byte range {}..{}", i, m.bc, m.ec, m.b, m.e));
+        }
+        cat.push_str(&m.surface);
+        pos = m.e;
+    }
+    if pos != text.len() {
+        return Some(format!("last morpheme ends at byte {} of {}", pos, text.len()));
+    }
+    if cat != text {
+        return Some("concatenated surfaces differ from the input".into());
+    }
+    None
+}
+
+fn term(text: &str, a: &Analysis) -> String {
+    format!(
+        "check_c01 {} {} {} {} {}",
+        cbytes(text.as_bytes()),
+        cbytes(a.cur.as_bytes()),
+        clist(a.m2o.iter().map(|x| cnu(*x))),
+        clist(a.nodes.iter().map(|n| format!("({}, {}, {}, {})", cnu(n.0), cnu(n.1), cnu(n.2), cnu(n.3)))),
+        clist(a.morphs.iter().map(|m| format!("mkM {} {} {} {} {}", cnu(m.b), cnu(m.e), cnu(m.bc), cnu(m.ec), cbytes(m.surface.as_bytes()))))
+    )
+}
+
+fn desc(text: &str, mode: u8, st: &Stack, ds: &DictSpec) -> Value {
+    let mname = ["A", "B", "C"][mode as usize];
+    json!({"kind": "c01", "text": text, "mode": mname,
+           "stack": {"input": st.input, "oov": st.oov, "rewrite": st.rewrite},
+           "dict": {"kind": ds.kind, "seed": ds.seed.to_string()}})
+}
+
+fn run_one(sink: &mut Sink, dict: &JapaneseDictionary, text: &str, mode: u8, st: &Stack, ds: &DictSpec, verbose: bool) -> usize {
+    let d = desc(text, mode, st, ds);
+    sink.tag(&format!("mode={}", ["A", "B", "C"][mode as usize]));
+    match analyse(dict, text, mode) {
+        Err(p) => {
+            // a panic of analysis is C03's subject; for C01 it is only counted (well-formed generated dictionaries do not get here)
+            if verbose {
+                println!("analysis panicked: {}", p);
+            }
+            sink.tag("analysis_panicked(not C01)");
+            sink.case_rust_only(d, false);
+            0
+        }
+        Ok(None) => {
+            if verbose {
+                println!("tokenization rejected the input");
+            }
+            sink.tag("rejected_by_tokenizer");
+            sink.case_rust_only(d, false);
+            0
+        }
+        Ok(Some(a)) => {
+            let rewritten = a.cur != text;
+            let identity = a.m2o.iter().enumerate().all(|(i, x)| i == *x);
+            sink.tag(if rewritten { "text_rewritten" } else { "text_unchanged" });
+            if a.cur.len() > text.len() {
+                sink.tag("rewritten_longer");
+            }
+            if a.cur.len() < text.len() {
+                sink.tag("rewritten_shorter");
+            }
+            if a.morphs.iter().any(|m| m.b == m.e) {
+                sink.tag("has_empty_range_morpheme");
+            }
+            if a.cur.is_empty() {
+                sink.tag("normalised_empty");
+            }
+            sink.tag(&format!("morphemes={}", usize::min(a.morphs.len(), 10)));
+            // very long inputs are checked by the Rust-side statement of the property only (no Coq term of that size)
+            let id = if text.len() > 3000 {
+                sink.tag("long_input_rust_oracle_only");
+                sink.case_rust_only(d, false)
+            } else {
+                sink.case(term(text, &a), d, (!identity || rewritten) && a.morphs.len() > 1)
+            };
+            let o = oracle(text, &a);
+            if verbose {
+                println!("input      : {:?}", text);
+                println!("normalised : {:?}", a.cur);
+                println!("m2o        : {:?}", a.m2o);
+                println!("nodes      : {:?}", a.nodes);
+                for m in &a.morphs {
+                    println!("  {}..{} (cp {}..{}) {:?}", m.b, m.e, m.bc, m.ec, m.surface);
+                }
+                println!("oracle     : {:?}", o);
+            }
+            if let Some(w) = o {
+                sink.fail(id, &w, "");
+            }
+            a.morphs.len()
+        }
+    }
+}
+
+fn gen_stack(rng: &mut Rng) -> Stack {
+    let mut input = vec![];
+    for k in 0..3u8 {
+        if rng.chance(2, 3) {
+            input.push(k);
+        }
+    }
+    if rng.chance(1, 5) {
+        input.reverse();
+    }
+    Stack { input, oov: rng.below(3) as u8, rewrite: rng.below(5) as u8 }
+}
+
+pub fn run(args: &Args) {
+    let mut sink = Sink::new("C01", &args.out, &["Model.Buffer"], args.seed, &args.tier);
+    sink.rule("real tokenizer (StatefulTokenizer) x plugin stacks {any sub-sequence / some reorderings of NFKC+lower-casing+rewrite table, prolonged-sound-mark collapsing, yomigana deletion} x OOV {simple; mecab+simple; mecab+regex+simple} x path rewriting {none, numeric, katakana, both} x dictionaries {shipped system+user; generated system with well-formed A/B splits; generated system + generated user dictionary referring to it} x modes A/B/C x inputs mixing dictionary words, NFKC-expanding characters (U+FDFA, ㍿, ㌔, half-width kana + marks), yomigana brackets, prolonged marks, numerals, katakana, combining marks, 4-byte characters, empty input. Every case: the path in rewritten-text coordinates, the offset map and everything Morpheme reports. non-trivial = offset map is not the identity and more than one morpheme, distinct Coq term");
+    if let Some(p) = &args.replay {
+        let v: Value = serde_json::from_str(&std::fs::read_to_string(p).unwrap()).unwrap();
+        let c = &v["case"];
+        let st = Stack {
+            input: c["stack"]["input"].as_array().unwrap().iter().map(|x| x.as_u64().unwrap() as u8).collect(),
+            oov: c["stack"]["oov"].as_u64().unwrap() as u8,
+            rewrite: c["stack"]["rewrite"].as_u64().unwrap() as u8,
+        };
+        let ds = DictSpec { kind: c["dict"]["kind"].as_u64().unwrap() as u8, seed: c["dict"]["seed"].as_str().unwrap().parse().unwrap() };
+        let mode = match c["mode"].as_str().unwrap() {
+            "A" => 0,
+            "B" => 1,
+            _ => 2,
+        };
+        let bd = build_dict(&ds).expect("dictionary");
+        let dict = load(&bd, &st).expect("load");
+        println!("configuration: {}", stack_json(&st));
+        run_one(&mut sink, &dict, c["text"].as_str().unwrap(), mode, &st, &ds, true);
+        sink.finish();
+        return;
+    }
+    let mut rng = Rng::new(args.seed);
+    let mut built: HashMap<(u8, u64), BuiltDict> = HashMap::new();
+    // directed cases on the shipped configuration first
+    let full = Stack { input: vec![0, 1, 2], oov: 1, rewrite: 4 };
+    let ds0 = DictSpec { kind: 0, seed: 0 };
+    built.insert((0, 0), build_dict(&ds0).expect("shipped dictionaries"));
+    {
+        let dict = load(&built[&(0, 0)], &full).expect("shipped configuration loads");
+        let directed = [
+            "", "東京都", "京都東京都京都", "東京都に行った", "ｱｲｱｲｳ", "東京（とうきょう）都", "漢字(かんじ)に", "あーーーーに", "㍿東京", "\u{FDFA}京都", "１，０００に", "六三四",
+            "特A", "な。な", "アイアイウ", "東京府", "ぴらる", "ＡＢ", "か\u{3099}", "東京(と)(と)都", "(と)", "ーー", "東京ーーー都〜〜", "1.5.2", "二〇二四", " ", "　 　",
+        ];
+        for t in directed {
+            for mode in 0..3 {
+                run_one(&mut sink, &dict, t, mode, &full, &ds0, false);
+                sink.tag("directed");
+            }
+        }
+        // the length limit: exactly MAX_LENGTH bytes would need a 49149-character lattice; only the rejection is exercised here
+        let long = "a".repeat(49150);
+        run_one(&mut sink, &dict, &long, 2, &full, &ds0, false);
+    }
+    let nconf = args.n(60, 600);
+    let per = args.n(10, 30);
+    for _ in 0..nconf {
+        let st = gen_stack(&mut rng);
+        let ds = DictSpec { kind: rng.below(3) as u8, seed: if rng.chance(1, 2) { 1 + rng.below(4) } else { rng.next() >> 8 } };
+        let ds = if ds.kind == 0 { ds0.clone() } else { ds };
+        let key = (ds.kind, ds.seed);
+        if !built.contains_key(&key) {
+            match build_dict(&ds) {
+                Ok(b) => {
+                    built.insert(key, b);
+                }
+                Err(e) => {
+                    // a generated dictionary that does not compile is outside C01 (C06); counted only
+                    sink.tag("generated_dictionary_rejected");
+                    eprintln!("dictionary {:?} not built: {}", ds, e);
+                    continue;
+                }
+            }
+        }
+        let bd = &built[&key];
+        let dict = match load(bd, &st) {
+            Ok(d) => d,
+            Err(e) => {
+                sink.tag("configuration_rejected");
+                eprintln!("configuration {:?} not loaded: {}", st, e);
+                continue;
+            }
+        };
+        sink.tag(&format!("dict_kind={}", ds.kind));
+        sink.tag(&format!("input_plugins={:?}", st.input));
+        sink.tag(&format!("oov={} rewrite={}", st.oov, st.rewrite));
+        for _ in 0..per {
+            let text = gen_text(&mut rng, &bd.words);
+            let counts: Vec<usize> = (0..3).map(|mode| run_one(&mut sink, &dict, &text, mode, &st, &ds, false)).collect();
+            if counts[0] > counts[2] {
+                sink.tag("mode_A_splits_further_than_C");
+            }
+            if counts[1] > counts[2] {
+                sink.tag("mode_B_splits_further_than_C");
+            }
+        }
+    }
+    sink.finish();
 }
